@@ -669,6 +669,9 @@ class RecR(T.RecurringTask):
 keep = []
 assert T._task_manager is None
 for name, kind, arg in order:
+    if kind == "fn":
+        keep.append(T.OneShotFunction(lambda name=name: log.append((name, clock[0]))))
+        continue
     t = Rec(name) if kind == "at" else RecR(name, arg)
     keep.append(t)
     if kind == "at":
@@ -700,8 +703,11 @@ def pre_manager_case(run, rng):
     n = rng.randrange(2, 7)
     order = []
     for i in range(n):
-        if rng.random() < 0.3:
+        r = rng.random()
+        if r < 0.3:
             order.append(("r%d" % i, "every", rng.choice([500, 1000])))
+        elif r < 0.45:
+            order.append(("tf%d" % i, "fn", 0))         # OneShotFunction: "as soon as possible"
         else:
             order.append(("t%d" % i, "at", rng.choice([0.0, 1.0, 1.0, 2.0, 0.5])))
     try:
@@ -724,6 +730,9 @@ def pre_manager_case(run, rng):
         if kind == "at":
             exp.append((1000.0 + arg, seq, name))
             seq += 1
+        elif kind == "fn":
+            exp.append((0.0, seq, name))                # due before anything with a time, called when the manager starts
+            seq += 1
         else:
             t = 1000.0
             while True:
@@ -733,7 +742,7 @@ def pre_manager_case(run, rng):
                 exp.append((round(t, 6), seq, name))
             seq += 1
     exp.sort()
-    want = [(n_, t_) for t_, s_, n_ in exp]
+    want = [(n_, max(t_, 1000.0)) for t_, s_, n_ in exp]
     got = [(n_, round(t_, 6)) for n_, t_ in fired]
     # recurring tasks re-installed while running get new sequence numbers: compare per instant, one-shots among themselves first
     ones_got = [x for x in got if x[0].startswith("t")]
